@@ -1,9 +1,10 @@
 """C05 -- the initial tick updates every device at every depth exactly once.
 (a) whole simulations of generated nestings compared with Model/Sim.v, oracle: every device exactly once at the
     initial time, before any later update (61, 62);
-(b) an inner (or top-level) device raises an interrupt at event-loop step k, for every k before that device has
-    had its first update (adapters that interrupt as soon as they start, while the initial tick is on its way down
-    the nesting): still every device is updated in the initial tick (63)."""
+(b) an inner (or top-level) device raises an interrupt at event-loop step k, for every k until the initial tick has
+    updated its last device (adapters that interrupt as soon as they start or right after their first update, while
+    the initial tick is on its way through the nesting): still every device is updated in the initial tick (63) and
+    nothing the initial tick delivered is lost (81)."""
 import slevel
 import sprops
 from common import P, T, run_shards
@@ -29,15 +30,18 @@ def early_part(ck, tier, rng):
     t_end = 700_000_003
     cases, terms = [], []
     for name, cfg, devs in configs:
+        ndev = len(slevel.devices_of(cfg))
         for d in slevel.devices_of(cfg):
-            for k in range(1, 60):
+            for k in range(1, 140):
                 r = slevel.run_internal(cfg, devs, (1, 1), 0, [], t_end, inject=(k, d))
                 inj = r["inj"]
                 if not inj:
                     continue            # the component did not exist yet at that step
-                if any(c == d for (c, _, _) in r["trace"][:inj["pos"]]):
-                    break               # the device has had its first update: later interrupts are C07's subject
-                cases.append(dict(name=name, cfg=cfg, devs=devs, device=d, step=k, run=r))
+                if inj["pos"] > ndev or any(t != 0 for (_, t, _) in r["trace"][:inj["pos"]]):
+                    break               # the initial tick has updated everybody: later interrupts are C07's subject
+                # before the device's own first update, or after it while the initial tick is still on its way
+                during = any(c == d for (c, _, _) in r["trace"][:inj["pos"]])
+                cases.append(dict(name=name, cfg=cfg, devs=devs, device=d, step=k, run=r, during=during))
                 terms.append(T(slevel.render_sim_case(cfg, devs, (1, 1), 0, [], t_end, r), P(d)))
     # the interrupt is published before the master scheduler has even subscribed (components started first, an adapter
     # interrupting at once, the scheduler coming up a few loop steps later): it is replayed during the scheduler's set-up
@@ -55,17 +59,19 @@ def early_part(ck, tier, rng):
                     cases.append(dict(name=name + "-late-scheduler", cfg=cfg, devs=devs, device=d, step=1, run=r, sched_delay=sd, initial=init))
                     terms.append(T(slevel.render_sim_case(cfg, devs, (1, 1), init, [], t_end, r, pre=[d]), P(d)))
     ck.coverage.update(interrupts_before_the_scheduler_subscribed=nlate)
-    bad = run_shards(PID + "_early", sprops.HEADER, "early_case", "check_initial_early", terms, shard_size=40)
+    bad = run_shards(PID + "_early", sprops.HEADER, "early_case", "check_initial_early_latest", terms, shard_size=40)
     for i, c in enumerate(cases):
         ck.count(f"early:{c['name']}:{c['device']}:{c['step']}", bool(slevel.path_of(c["cfg"], c["device"])[1]))
         if c["run"]["error"] or c["run"]["errors"]:
             bad.setdefault(i, []).append(63)
-    ck.coverage.update(early_interrupt_runs=len(cases), early_interrupt_disagreements=len(bad))
+    ck.coverage.update(early_interrupt_runs=len(cases), early_interrupt_disagreements=len(bad),
+                       interrupts_during_the_initial_tick_after_the_first_update=sum(1 for c in cases if c.get("during")))
     for i in sorted(bad):
         c = cases[i]
-        ck.report("device-not-updated-in-initial-tick-after-an-early-interrupt",
-                  f"device c{c['device']} interrupts at loop step {c['step']}, before the master ticks ({c['name']}): some device is not "
-                  f"updated in the initial tick",
+        ck.report("device-not-updated-in-initial-tick-after-an-early-interrupt" if 63 in bad[i] or c["run"]["errors"] else "initial-outputs-lost-after-an-interrupt-during-the-initial-tick",
+                  f"device c{c['device']} interrupts at loop step {c['step']}, while the initial tick is on its way ({c['name']}): " +
+                  ("some device is not updated in the initial tick" if 63 in bad[i] or c["run"]["errors"] else
+                   "some update is not handed the latest value its source reported (what the initial tick delivered is lost)"),
                   dict(kind="early", cfg={str(k): v for k, v in c["cfg"].items()}, devs={str(k): v for k, v in c["devs"].items()},
                        device=c["device"], step=c["step"], updates=[(cc, t) for (cc, t, _) in c["run"]["trace"]][:40],
                        errors=c["run"]["errors"][:2], sched_delay=c.get("sched_delay"), initial=c.get("initial", 0)))
@@ -89,7 +95,7 @@ def replay(rp):
     else:
         r = slevel.run_internal(cfg, devs, (1, 1), 0, [], 700_000_003, inject=(rp["step"], rp["device"]))
         term = slevel.render_sim_case(cfg, devs, (1, 1), 0, [], 700_000_003, r)
-    bad = run_shards("replay", sprops.HEADER, "early_case", "check_initial_early", [T(term, P(rp["device"]))])
+    bad = run_shards("replay", sprops.HEADER, "early_case", "check_initial_early_latest", [T(term, P(rp["device"]))])
     print("updates (device, time):", [(c, t) for (c, t, _) in r["trace"]][:40], "errors:", r["errors"][:2])
     print("codes:", bad.get(0, []))
     return 1 if bad or r["errors"] else 0
